@@ -332,6 +332,60 @@ class FGen:
         return out
 
 
+def move_patterns(max_len=2):
+    """Bounded-exhaustive family of user-type move / overwrite patterns (C12's "all move/overwrite patterns", also
+    used by C03): every sequence of <= max_len user-type assignments over {<state>y, u, v} (copy X <- Z or call
+    X <- f(t, Z), sources defined) x what is yielded (nothing | the last target | <state>y) x where control leaves
+    (plainly | whole body under a guard, else fail | last assignment guarded | guarded fail after the first
+    assignment | guarded switch to a second phase after the last assignment).  <p>s counts down so that the guard
+    changes between runs."""
+    UT = ["<state>y", "u", "v"]
+    guard = ["expr", GT(S, C(0))]
+
+    def seqs(n, defined):
+        if n == 0:
+            yield []
+            return
+        for tgt in UT:
+            for src in defined:
+                for kind in ("copy", "f"):
+                    if kind == "copy" and src == tgt:
+                        continue
+                    e = V(src) if kind == "copy" else F(T, V(src))
+                    for rest in seqs(n - 1, defined + ([tgt] if tgt not in defined else [])):
+                        yield [["assign", tgt, e, []]] + rest
+    progs = []
+    k = 0
+    for n in range(1, max_len + 1):
+        for body in seqs(n, ["<state>y"]):
+            last = body[-1][1]
+            for tail in ("none", "last", "state"):
+                for wrap in ("plain", "all_guarded_else_fail", "last_guarded", "guarded_fail_after_first", "guarded_switch_after_last"):
+                    if n == 1 and wrap == "guarded_fail_after_first":
+                        continue
+                    ops = [["assign", "<p>s", ADD(S, C(-1)), []]]
+                    yl = [] if tail == "none" else [["yield", V(last if tail == "last" else "<state>y"), "y", T, "final"]]
+                    if wrap == "plain":
+                        ops += body + yl
+                    elif wrap == "all_guarded_else_fail":
+                        ops += [["if", guard, body + yl, [["fail"]]]]
+                    elif wrap == "last_guarded":
+                        if tail == "last" and last != "<state>y" and not any(b[1] == last for b in body[:-1]):
+                            continue       # the yielded variable would be unassigned when the guard is false
+                        ops += body[:-1] + [["if", guard, [body[-1]], None]] + yl
+                    elif wrap == "guarded_fail_after_first":
+                        ops += body[:1] + [["if", guard, [["fail"]], None]] + body[1:] + yl
+                    else:
+                        ops += body + [["if", guard, [["switch", "q"]], None]] + yl
+                    phases = [{"name": "main", "next": "main", "ops": ops + [pg.STEP]},
+                              {"name": "q", "next": "main", "ops": [["assign", "<p>s", ADD(S, C(2)), []],
+                                                                     ["yield", Y, "y", T, "final"], pg.STEP]},
+                              {"name": "zz_kindseed", "next": "zz_kindseed", "ops": [["assign_call", ["<state>y"], "<func>f", [T, Y], {}]]}]
+                    progs.append({"name": "move%d" % k, "phases": phases, "initial": "main"})
+                    k += 1
+    return progs
+
+
 def random_prog(rng, idx):
     g = FGen(rng)
     names = ["p0", "p1"] if rng.random() < 0.4 else ["p0"]
